@@ -411,3 +411,17 @@ PROPS["C11"]["rule"] += (" ; flood engine, kind peers (oracle only): 32 infohash
                          "entry length 6 / 18, token present")
 PROPS["C08"]["rule"] += (" ; flood engine, one small case of the kinds tokens / peers (see C10 / C11): ip of every get_peers reply = its requester "
                          "(response-ip-not-requester-compact-address:flood-peers), every query answered, accepted writes acknowledged")
+
+# maint engine, pass cases (harness/cmd/h/maint_pass.go; model coq/model/Maint.v + RunMaint.v, lemmas coq/proofs/MaintProofs.v): the table maintainer's
+# control flow is inside the model; a C06 / C14 run executes only the pass cases of the engine (VERIF_PROP)
+_MAINT_PASS = (" ; maint engine, pass cases (model-compared line mpass): ONE pass of the real Server.TableMaintainer over a table prepared through AddNode / answered "
+               "Ping / 20 virtual minutes / the failed-ping hook (good, questionable never heard from, questionable with a history, bad; buckets 0..d-1 full, bucket d "
+               "with a free slot / a silent questionable entry / a bad entry / a mix, further entries deeper), on a network answering ping for a chosen set of contacts "
+               "and never find_node; observed from the start of TableMaintainer until its goroutine sits in the pause between passes: the datagrams grouped into "
+               "bootstrap / ping round of bucket i / refresh of bucket i (set of destinations each) and the table afterwards (class and failed flag per entry), against "
+               "RunMaint.rm_boot / rm_pass = Maint.pass; the snapshot's own good / questionable / bad classification is checked against the model's first")
+PROPS["C06"]["engines"] = PROPS["C06"]["engines"] + ["maint"]
+PROPS["C06"]["rule"] += _MAINT_PASS + " (oracles good-entry-pinged-as-questionable, good-entry-marked-bad-by-table-maintenance, good-entry-dropped-by-table-maintenance)"
+PROPS["C14"]["engines"] = PROPS["C14"]["engines"] + ["maint"]
+PROPS["C14"]["rule"] += _MAINT_PASS + " (oracles maintainer-pass-does-not-end, maintainer-bootstrap-query-after-the-pass-began)"
+PROPS["C01"]["rule"] += _MAINT_PASS
